@@ -30,9 +30,9 @@ PROPS = {
         "timeout": {"quick": 300, "thorough": 3000},
     },
     "C02": {
-        "suites": ["c02", "c02race"],
+        "suites": ["c02", "c02race", "c02stale"],
         "assumptions": COMMON_ASSUME + [
-            "one updating goroutine per gauge (the property's quantifier); the load of the value and the reporter call are one action in the model (no schedule point between them in the code; a pass pre-empted there could hand an older value to the reporter after a newer one - not exhibited, see DESIGN.md C02)",
+            "one updating goroutine per gauge (the property's quantifier); reading the value and calling the reporter are separate steps of the model (the recording reporter's entry is a schedule point of the correspondence check); sync.Mutex gives mutual exclusion between the visits of one gauge (repair D13)",
         ],
         "trusted_base": ["cooperative scheduler on the verif yield hooks (harness/sched.go)"],
         "timeout": {"quick": 300, "thorough": 3000},
@@ -109,7 +109,8 @@ PROPS = {
         "suites": ["c08conc", "c08sched", "c08lock"],
         "assumptions": COMMON_ASSUME + [
             "'the reporting goroutine has ended' is observed by a goroutine dump after Close returned",
-            "a second Close call that overlaps the first returns nil before the first has finished (known finding D5b if exhibited); the barrier is claimed for the winning caller",
+            "a second Close call that overlaps the first returns nil before the first has finished (limitation D5b, theorem concurrent_close_returns_early); the barrier is claimed for the winning caller",
+            "Model.RootClose visits the cells of a pass in index order; suite c08lock arranges that order in the real registry (subscope i in shard i, root without metrics); arbitrary map orders are exercised by c08sched and judged by its oracle",
         ],
         "trusted_base": ["cooperative scheduler adopting the real report-loop goroutine at its first hook; free-running stress with a 20-200us ticker"],
         "timeout": {"quick": 400, "thorough": 3600},
